@@ -821,6 +821,8 @@ macro_rules! run_catalogue {
             loop {
                 set_m($ctx, Some(k1), None);
                 let Some(v) = fresh($ctx) else { break };
+                // the name is only known once the mutator returned: until then the crash record carries its index
+                set_name(&mut prog().m1name, &format!("{}.mutator#{}", $ctx.label, k1));
                 let mut name: Option<String> = None;
                 let r = catch_unwind(AssertUnwindSafe(|| { name = $mutate(v, k1); }));
                 if let Err(e) = r {
